@@ -138,13 +138,16 @@ def inline_references(schema, named_schemas, defined=None):
         return inline_references(named_schemas[schema], named_schemas, defined)
 
     schema_type = schema["type"]
+    if schema_type in ("record", "error", "enum", "fixed"):
+        if schema["name"] in defined:
+            # already written out at an earlier reference: refer to it by name
+            return schema["name"]
+        defined.add(schema["name"])
     result = {
         key: value
         for key, value in schema.items()
         if key not in ("__fastavro_parsed", "__named_schemas")
     }
-    if schema_type in ("record", "error", "enum", "fixed"):
-        defined.add(schema["name"])
     if schema_type in ("record", "error"):
         result["fields"] = [
             dict(
